@@ -20,6 +20,7 @@ from harness.core import Prop
 
 SIGNALS = ['SIGINT', 'SIGTERM', 'SIGCHLD', 'SIGUSR1']      # = Spinner.sigNames in TTV/Model/Spinner.lean
 NH = 4                                                      # marker handlers per signal
+REAL_UNIT = 0.04                                            # seconds per time unit in the real-reactor scenarios
 
 
 def _mk_handler(s, h):
@@ -113,9 +114,28 @@ class C15(Prop):
         from twisted.internet.defer import AlreadyCalledError
         from testtools.twistedsupport import _spinner as S
         from harness.vreactor import VirtualReactor
-        debug, steps = inp
-        r = VirtualReactor()
+        debug, steps = inp[0], inp[1]
+        real = len(inp) > 2 and inp[2] == 'real'
+        if real:
+            # the REAL Twisted reactor, spun repeatedly by the Spinner (crash, never stop); delays in units of REAL_UNIT seconds;
+            # event times are reported as the nominal delay of the call that ran (order and outcome are observed, durations are not)
+            from twisted.internet import reactor as r
+            scale = REAL_UNIT
+            if r.running or r.getDelayedCalls():
+                return ['real-reactor-not-clean']
+        else:
+            r = VirtualReactor()
+            scale = 1
         sp = S.Spinner(r, debug=debug)
+        real_events = []
+        if real:
+            timed_out = sp._timed_out          # instrumentation only: note when the spinner's own timeout call runs
+
+            def noting_timed_out(*a, **kw):
+                real_events.append([real_T[0], 'timeout'])
+                return timed_out(*a, **kw)
+            sp._timed_out = noting_timed_out
+        real_T = [0]
         label = {}          # id(DelayedCall) -> label
         keep = []           # keeps the labelled objects alive (ids stay unique)
         timeouts = set()
@@ -159,6 +179,8 @@ class C15(Prop):
                         pass
                 elif kind == 'addsel':
                     def go():
+                        if real:
+                            raise ValueError('selectables are not used in the real-reactor scenarios')
                         r.selectables.append(Sel(l))
                 elif kind == 'setsig':
                     def go():
@@ -168,7 +190,7 @@ class C15(Prop):
                     def go():
                         inner = S.Spinner(r) if a[1] else sp
                         try:
-                            inner.run(1, lambda: None)
+                            inner.run(1 * scale, lambda: None)
                             reentries.append('returned')
                         except S.ReentryError:
                             reentries.append('reentry')
@@ -179,7 +201,12 @@ class C15(Prop):
                 return go
 
             def later(delay, l, a):
-                dc = r.callLater(delay, act(l, a))
+                go = act(l, a)
+                if real:
+                    def go(go=go):
+                        real_events.append([delay, l])
+                        go()
+                dc = r.callLater(delay * scale, go)
                 label[id(dc)] = l
                 keep.append(dc)
 
@@ -192,7 +219,7 @@ class C15(Prop):
                     if op[0] == 'later':
                         later(op[1], p + j, op[2])
                     else:
-                        now_events.append([int(r.seconds() - t0), p + j])
+                        now_events.append([0 if real else int(r.seconds() - t0), p + j])
                         act(p + j, op[1])()
                 if term == 'deferred':
                     return d
@@ -202,10 +229,12 @@ class C15(Prop):
 
             stop0 = r.stop
             sig_before = self._cur_sigs()
-            n_exec = len(r.executed)
+            n_exec = 0 if real else len(r.executed)
+            del real_events[:]
+            real_T[0] = T
             tc_before = sp._timeout_call
             try:
-                x = sp.run(T, f)
+                x = sp.run(T * scale, f)
                 res = ['value', x] if type(x) is int else ['odd-value', type(x).__name__]
             except S.TimeoutError:
                 res = 'timeout'
@@ -222,11 +251,18 @@ class C15(Prop):
             if sp._timeout_call is not tc_before and sp._timeout_call is not None:
                 timeouts.add(id(sp._timeout_call))
                 keep.append(sp._timeout_call)
-            events = now_events + [[int(t - t0), 'timeout' if id(dc) in timeouts else label.get(id(dc), 'unknown')]
-                                   for t, dc in r.executed[n_exec:]]
+            if real:
+                events = now_events + [list(e) for e in real_events]
+                n_sel = len([x for x in r.getReaders() + r.getWriters() if x not in r._internalReaders])
+                elapsed = max([e[0] for e in real_events] + [0])
+            else:
+                events = now_events + [[int(t - t0), 'timeout' if id(dc) in timeouts else label.get(id(dc), 'unknown')]
+                                       for t, dc in r.executed[n_exec:]]
+                n_sel = len(r.selectables)
+                elapsed = int(r.seconds() - t0)
             obs = ['run', res, events, reentries, [jrepr(x) for x in sp.get_junk()], len(r.getDelayedCalls()),
-                   len(r.selectables), bool(r.running), r.stop == stop0, sig_before, self._cur_sigs(), int(r.seconds() - t0)]
-            if r.errors:
+                   n_sel, bool(r.running), r.stop == stop0, sig_before, self._cur_sigs(), elapsed]
+            if not real and r.errors:
                 obs.append(['reactor-errors'] + [type(e).__name__ for e in r.errors])
                 del r.errors[:]
             trace.append(obs)
@@ -235,7 +271,36 @@ class C15(Prop):
                 for dc in r.getDelayedCalls():
                     dc.cancel()
             d.addErrback(lambda failure: None)     # an orphaned failed Deferred shall not log at collection
+        if real:
+            for dc in r.getDelayedCalls():          # leave the process clean whatever happened
+                dc.cancel()
         return trace
+
+    # ----- scenarios on the real reactor (events at least 2 units apart, so that their order is robust under load)
+    REAL = [
+        ('sync-return', [['run', 4, [], [], ['ret', 7]]], True),
+        ('sync-raise', [['run', 4, [], [], ['raise', 3]]], True),
+        ('fires-before-timeout', [['run', 6, [], [['later', 2, ['fire', 5]]], 'deferred']], True),
+        ('fails-before-timeout', [['run', 6, [], [['later', 2, ['fail', 3]]], 'deferred']], False),
+        ('never-fires', [['run', 3, [], [['later', 8, 'noop']], 'deferred'], 'clear'], False),
+        ('stop-requested', [['run', 6, [[2, 'stop']], [], 'deferred'], 'clear'], False),
+        ('leftover-becomes-junk', [['run', 6, [], [['later', 2, ['fire', 1]], ['later', 8, 'noop']], 'deferred'], 'clear',
+                                   ['run', 4, [], [], ['ret', 2]]], False),
+        ('reentry-refused', [['run', 8, [], [['now', ['reenter', False]], ['later', 2, ['reenter', True]], ['later', 4, ['fire', 6]]],
+                              'deferred']], False),
+        ('stale-junk-refused', [['run', 4, [], [['later', 9, 'noop']], ['ret', 1]], ['run', 4, [[3, 'noop']], [], ['ret', 2]], 'clear',
+                                ['run', 4, [], [], ['ret', 3]]], True),
+        ('signals-restored', [['run', 8, [], [['now', ['setsig', 0, 2]], ['later', 2, ['setsig', 2, 3]], ['now', ['setsig', 3, 1]],
+                                             ['later', 4, ['fire', 4]]], 'deferred']], False),
+        ('scheduled-before-run', [['run', 6, [[2, ['fire', 1]]], [['later', 4, 'noop']], 'deferred'], 'clear'], False),
+        ('fires-after-timeout', [['run', 2, [], [['later', 5, ['fire', 9]]], 'deferred'], 'clear'], True),
+    ]
+
+    def real_inputs(self, quick_only):
+        return [[False, steps, 'real'] for _, steps, quick in self.REAL if quick or not quick_only]
+
+    def corpus(self):
+        return Prop.corpus(self) + self.real_inputs(True)
 
     # ----- generators
     def gen_act(self, rng, main=True):
@@ -281,6 +346,8 @@ class C15(Prop):
         return [rng.random() < 0.2, steps]
 
     def enumerate(self, tier):
+        for inp in self.real_inputs(False):
+            yield inp
         T = 2
         fires = [None] + [(where, d, k) for where in ('pre', 'body') for d in (1, 2, 3) for k in ('fire', 'fail')] + \
                 [('now', 0, 'fire'), ('now', 0, 'fail')]
@@ -335,7 +402,7 @@ class C15(Prop):
         return False
 
     def features(self, inp, trace):
-        f = ['steps=%d' % len(inp[1]), 'runs=%d' % len(self._runs(inp))]
+        f = ['steps=%d' % len(inp[1]), 'runs=%d' % len(self._runs(inp)), 'reactor:' + ('real' if len(inp) > 2 else 'virtual')]
         if inp[0]:
             f.append('debug')
         if not isinstance(trace, list) or (trace and trace[0] == 'raised'):
@@ -363,6 +430,10 @@ class C15(Prop):
         return f
 
     def shrink(self, inp):
+        for cand in self._shrink2(inp[:2]):
+            yield cand + inp[2:]
+
+    def _shrink2(self, inp):
         debug, steps = inp
         for i in range(len(steps)):
             yield [debug, steps[:i] + steps[i + 1:]]
